@@ -926,8 +926,17 @@ func c06SentPacketBookkeeping(c *Ctx) {
 		return ok && fieldOfAddress(st.Addr) == last && ParamV("t")(st.Val)
 	}
 	c.Floor(R, "bytesInFlight updates in SentPacket", countInstr(f, counted), 1)
-	c.cut(R, "record:a packet counted in flight records its send time for the PTO", &Cut{Fn: f, Target: counted, Barrier: recorded},
-		"getPTOTimeAndSpace skips a space whose lastAckElicitingPacketTime is zero: ack-eliciting data outstanding there would have no loss-detection deadline")
+	// the two updates happen on the same paths, in either order
+	before := (&Cut{Fn: f, Target: counted, Barrier: recorded}).Run()
+	var after *Witness
+	if before != nil {
+		after = (&Cut{Fn: f, Start: counted, Target: isReturn, Barrier: recorded, TrackFlags: true}).Run()
+	}
+	detail := "getPTOTimeAndSpace skips a space whose lastAckElicitingPacketTime is zero: ack-eliciting data outstanding there would have no loss-detection deadline"
+	if before != nil && after != nil {
+		detail += " — VIOLATED: a path counts the packet in flight (" + before.String(c.P) + ") and returns (" + after.String(c.P) + ") without recording the send time"
+	}
+	c.Check(before == nil || after == nil, R, "record:a packet counted in flight records its send time for the PTO", c.P.Pos(f.Pos()), detail)
 	arm := c.obj(ah, "sentPacketHandler", "setLossDetectionTimer")
 	c.cut(R, "arm:the loss-detection timer is re-armed after an ack-eliciting packet was counted", &Cut{Fn: f, Start: counted, Target: isReturn, Barrier: CallsTo(arm), TrackFlags: true},
 		"a newly outstanding packet must have a deadline")
